@@ -131,9 +131,9 @@ type c16Case struct {
 	// last observed view per backend and hash index (nil = absent).
 	last [2][]*c16View
 
-	// idBase is subtracted from attempt ids when rendering, so that equal
-	// histories render (and fingerprint) equally.
+	// idBase is subtracted from attempt ids for fingerprinting.
 	idBase uint64
+	fp     []string
 
 	hist    []string
 	labels  map[string]int
@@ -307,14 +307,17 @@ func (c *c16Case) applyModel(op c16Op) c16Exp {
 // step runs one operation on both stores and checks it. A returned error is
 // a violation (or, with c.busy set, an inconclusive sqlite lock timeout).
 func (c *c16Case) step(op c16Op) error {
-	shown := op
-	if shown.ID >= c.idBase {
-		shown.ID -= c.idBase
+	// Fingerprints use attempt ids relative to the case, so that equal
+	// histories of different cases count once.
+	rel := op
+	if rel.ID >= c.idBase {
+		rel.ID -= c.idBase
 	}
-	if shown.Spec.ID >= c.idBase {
-		shown.Spec.ID -= c.idBase
+	if rel.Spec.ID >= c.idBase {
+		rel.Spec.ID -= c.idBase
 	}
-	c.hist = append(c.hist, shown.String())
+	c.fp = append(c.fp, rel.String())
+	c.hist = append(c.hist, op.String())
 	var h lntypes.Hash
 	perHash := op.Kind != c16OpDelPays && op.Kind != c16OpInFlight
 	if perHash {
@@ -340,7 +343,7 @@ func (c *c16Case) step(op c16Op) error {
 	c.hist[len(c.hist)-1] += "  => model: " + exp.Class
 
 	var res [2]c16Res
-	rel := [2]string{c16RelaxKey(0, op, exp), c16RelaxKey(1, op, exp)}
+	relax := [2]string{c16RelaxKey(0, op, exp), c16RelaxKey(1, op, exp)}
 	relUsed := make(map[string]bool)
 	defer func() {
 		for k := range relUsed {
@@ -363,9 +366,9 @@ func (c *c16Case) step(op c16Op) error {
 				c16ErrStr(r.err), c16KeyHint(b, op, exp))
 		}
 		if r.err != nil && len(exp.AnyOf) > 0 &&
-			!c16IsAny(r.err, exp.AnyOf) && rel[b] != "" {
+			!c16IsAny(r.err, exp.AnyOf) && relax[b] != "" {
 
-			relUsed[rel[b]] = true
+			relUsed[relax[b]] = true
 		} else if r.err != nil && len(exp.AnyOf) > 0 &&
 			!c16IsAny(r.err, exp.AnyOf) {
 
@@ -455,8 +458,8 @@ func (c *c16Case) step(op c16Op) error {
 	}
 	if kvErr != nil {
 		ks, ss := c16SentinelOf(kvErr), c16SentinelOf(sqlErr)
-		if ks != ss && (rel[0] != "" || rel[1] != "") {
-			relUsed[rel[0]+rel[1]] = true
+		if ks != ss && (relax[0] != "" || relax[1] != "") {
+			relUsed[relax[0]+relax[1]] = true
 		} else if ks != ss {
 			return c.errorf("%v: backends disagree on a sentinel callers "+
 				"branch on: kv %q (%v) vs sql %q (%v)", op, ks, kvErr,
